@@ -12,6 +12,23 @@ set_option linter.unusedVariables false
 namespace RingBuffer
 open Extracted.RingBuffer Extracted.RingBufferQuery
 
+/-! ### Meaning of the translated query-side conditions
+
+As in `RingBufferGaps`: the generated conditions are opaque `def`s and every proof goes through these lemmas
+(`unfold; omega`), so that any spelling of the same condition in the source leaves the proofs intact.  They state the
+FIXED behaviour: on a tree where `window` tests the raw bounds, `_fill_gaps` starts at the raw `start`, or
+`MovingWindow.at` has no index test, they fail — which is how the check notices. -/
+
+theorem tiiOutside_iff (t n o p : Int) : tiiOutside t n o p ↔ (n + p < t ∨ t < o) := by unfold tiiOutside; omega
+theorem winClampStart_eq (st o : Int) : winClampStart st o = max st o := by unfold winClampStart; omega
+theorem winClampEnd_eq (en n p : Int) : winClampEnd en n p = min en (n + p) := by unfold winClampEnd; omega
+theorem winEmpty_iff (st en ns ne : Int) : winEmpty st en ns ne ↔ ns ≥ ne := by unfold winEmpty; omega
+theorem winFillOrigin_eq (st ns : Int) : winFillOrigin st ns = ns := by unfold winFillOrigin; omega
+theorem atTsOutOfRange_iff (key o n : Int) : atTsOutOfRange key o n ↔ (key < o ∨ key > n) := by
+  unfold atTsOutOfRange; omega
+theorem atIndexOutOfRange_iff (key cc : Int) : atIndexOutOfRange key cc ↔ ¬ (-cc ≤ key ∧ key < cc) := by
+  unfold atIndexOutOfRange; omega
+
 /-! ### Counting slots of a range -/
 
 theorem cnt_add (p : Int → Bool) (lo : Int) (a b : Nat) :
@@ -582,7 +599,7 @@ theorem windowTs_spec {α : Type} (c : Cfg) (hp : 0 < c.period) (s : State α) (
     have hcap' : (1 : Int) ≤ (s.cap : Int) := by exact_mod_cast hcap
     have hcc : ¬ (countCovered s = 0) := by omega
     unfold windowTs
-    simp only [hcc, if_false, h2, h3, winClampStart, winClampEnd, winEmpty, winFillOrigin]
+    simp only [hcc, if_false, h2, h3, winClampStart_eq, winClampEnd_eq, winEmpty_iff, winFillOrigin_eq]
     have e1 : slotTime c n + c.period = slotTime c (n + 1) := (slotTime_succ c n).symm
     simp only [e1, normSlot_max c hp, normSlot_min c hp]
     generalize hA : max (normSlot c start) k = A
@@ -672,7 +689,7 @@ theorem windowIdx_spec {α : Type} (c : Cfg) (hp : 0 < c.period) (s : State α) 
 theorem atSlot_spec {α : Type} (s : State α) (_hI : Inv s) (n : Int) (hn : s.newest = some n) (k : Int)
     (h1 : n - ((s.cap : Int) - 1) ≤ k) (h2 : k ≤ n) : atSlot s k = .value ((abs s).val k) := by
   unfold atSlot
-  simp only [hn, atNanOnGap, true_and, tiiOutside, oldestOf_eq]
+  simp only [hn, atNanOnGap, true_and, tiiOutside_iff, oldestOf_eq]
   cases hm : isMissing s.gaps k with
   | true => simp [abs_val_missing s k hm]
   | false =>
@@ -693,7 +710,7 @@ theorem atIndex_spec {α : Type} (s : State α) (hI : Inv s) (i : Int) :
   rcases covered_cases s hI with ⟨h1, h2, h3, _, _⟩ | ⟨n, k, hn, h1, h2, h3, h4, h5, h6, _⟩
   · unfold atIndex; simp [h1, h2]
   · unfold atIndex
-    simp only [h1, if_false, h2, h3, h4, atIndexOutOfRange]
+    simp only [h1, if_false, h2, h3, h4, atIndexOutOfRange_iff]
     by_cases hr : -(n - k + 1) ≤ i ∧ i < n - k + 1
     · simp only [hr, and_self, not_true_eq_false, if_false, if_true]
       unfold getTimestamp
@@ -714,7 +731,7 @@ theorem atTs_spec {α : Type} (c : Cfg) (hp : 0 < c.period) (s : State α) (hI :
   rcases covered_cases s hI with ⟨h1, h2, h3, _, _⟩ | ⟨n, k, hn, h1, h2, h3, h4, h5, h6, _⟩
   · unfold atTs; simp [h1, h2]
   · unfold atTs
-    simp only [h1, if_false, h2, h3, atTsOutOfRange]
+    simp only [h1, if_false, h2, h3, atTsOutOfRange_iff]
     by_cases hr : ts < slotTime c k ∨ ts > slotTime c n
     · simp only [hr, if_true]
     · simp only [hr, if_false]
